@@ -3,6 +3,7 @@ package worlds
 import (
 	"context"
 	"fmt"
+	"os"
 	"runtime"
 	"sync"
 	"sync/atomic"
@@ -415,6 +416,7 @@ func refcountCase(c *mon.Case, prop string, idx int) {
 				}
 				hr := mine[0]
 				hr.h.releasing.Store(true)
+				c.Rec(fmt.Sprint("ref", a), fmt.Sprint("Release holder ", hr.h.id, " (wind-down)"), nil)
 				hr.ref.Release()
 				hr.h.gone.Store(true)
 				mine = mine[1:]
@@ -614,6 +616,7 @@ func refcountCase(c *mon.Case, prop string, idx int) {
 			close(g.gate)
 		}
 	}
+	mon.DebugKeepDump = os.Getenv("VERIF_DEBUG_QUIESCE") != ""
 	quiet := func(what string) bool {
 		for round := 0; round < 50; round++ {
 			if !mon.Quiesce(10 * time.Second) {
@@ -631,6 +634,9 @@ func refcountCase(c *mon.Case, prop string, idx int) {
 				}
 			}
 			if !opened {
+				if s2 := mon.TakeSnapshot(true); s2.NotQuiet != 0 && os.Getenv("VERIF_DEBUG_QUIESCE") != "" {
+					fmt.Fprintf(os.Stderr, "QUIESCE-ANOMALY states %v\n%s\n=== snapshot judged quiet:\n%s\n", s2.States, s2.Dump, mon.LastQuietDump)
+				}
 				return true
 			}
 		}
@@ -671,6 +677,7 @@ func refcountCase(c *mon.Case, prop string, idx int) {
 	}
 
 	// ----- C08 audit at quiescence
+	c.Rec("judge", fmt.Sprintf("quiescent audit: liveCtx=%v cleared=%v held=%d gens=%d", liveCtx, clearedCtx, len(heldNow), len(gens)), nil)
 	c.Count("quiescent_release_audits", 1)
 	accessHolds := 0
 	for _, cs := range consumers {
@@ -702,7 +709,8 @@ func refcountCase(c *mon.Case, prop string, idx int) {
 		}
 		mustBeReleased := g.invalid.Load() != 0 || clearedCtx || (refsHeld == 0 && !(keepUnref && g.err == nil))
 		if n == 0 && mustBeReleased {
-			c.Violate("release", "refcount-value-not-released", "the newest value g%d has not been released at quiescence although it must be: invalidated=%v, context cleared=%v, references held=%d, keep-unreferenced=%v, resolver error=%v", g.g, g.invalid.Load() != 0, clearedCtx, refsHeld, keepUnref, g.err)
+			snap := mon.TakeSnapshot(true)
+			c.Violate("release", "refcount-value-not-released", "the newest value g%d has not been released at quiescence although it must be: invalidated=%v (mark at %d), context cleared=%v, references held=%d, keep-unreferenced=%v, resolver error=%v, target holds %s; goroutine states %v\n%s", g.g, g.invalid.Load() != 0, g.invalid.Load(), clearedCtx, refsHeld, keepUnref, g.err, valID(w.target.GetValue()), snap.States, snap.Dump)
 		}
 	}
 
@@ -981,7 +989,9 @@ func rfGatedCase(c *mon.Case) {
 	}
 	gl := w.genList()
 	if len(gl) != 1 {
-		c.Violate("resolver", "refcount-never-resolved", "after AddRef with a live context %d resolver calls were made at quiescence, want 1", len(gl))
+		snap := mon.TakeSnapshot(true)
+		time.Sleep(20 * time.Millisecond)
+		c.Violate("resolver", "refcount-never-resolved", "after AddRef with a live context %d resolver calls were made at quiescence, want 1 (20 ms later: %d); states %v\n%s", len(gl), len(w.genList()), snap.States, snap.Dump)
 		return
 	}
 	cx := &rtCtxs{}
